@@ -92,10 +92,15 @@ class Instruction(_mixins.DictMixin, _mixins.RegisterMixin, _mixins.CodeMixin):
 
             _resolved_params[name] = resolved_param
 
+        self._original_params = {
+            name: self._params[name] for name in self._unresolved_params
+        }
         self._params.update(_resolved_params)
 
     def _unresolve_params(self):
-        self._params.update(self._unresolved_params)
+        self._params.update(
+            self.__dict__.pop("_original_params", self._unresolved_params)
+        )
 
     @property
     def modes(self) -> Tuple[int, ...]:
